@@ -139,6 +139,11 @@ async fn run_async(run: usize, shards: usize, gen: &mut Gen, len: usize, two_key
             }
         };
         *clock.0.lock().unwrap() = 1000 + now;
+        // the TTL manager's tick (active expiry on every shard) may fall between any two commands: it removes what
+        // has expired and nothing else, so the model has no step for it
+        if gen.rng.gen_range(0..6) == 0 {
+            let _ = st.evict_expired_all_shards().await;
+        }
         let (r, path) = exec_mixed(&st, &c, &argv, &mut gen.rng).await;
         let ro = parse_argv(&argv).map(|cmd| cmd.is_read_only()).unwrap_or(false);
         let s = project(&st, now).await;
